@@ -649,7 +649,13 @@ async fn client_task(led: Led, kn: Knobs, conn: Conn, ks: Vec<usize>, gaps: Vec<
             fault(&led, Scope::Req(k), "fault.request_longer_than_a_frame_can_hold");
             led.borrow_mut().too_long.insert(k);
         }
-        let req = RequestMessage::new(msg).expect("request");
+        let mut req = RequestMessage::new(msg).expect("request");
+        // (Now and then with the DO bit: the request then has an OPT record
+        // of its own, next to whatever the transport adds to it.)
+        if sim::chance("caller.dnssec_ok", 1, 6) {
+            use domain::net::client::request::ComposeRequest;
+            req.set_dnssec_ok(true);
+        }
         let start = sim::now_ns();
         {
             let mut l = led.borrow_mut();
